@@ -91,14 +91,14 @@ Definition rank_table (g : grammar) (tab : list bool) : list nat :=
 Definition wf_auto (g : grammar) : bool :=
   let tab := nul_table g in wf_b g tab (rank_table g tab).
 
-(** expressions the default generator emits checks for: no switch nodes, literals below the sentinel *)
+(** literals and switch keys are code points (below the end-of-input sentinel) *)
 Fixpoint expr_ok (e : expr) : bool :=
   match e with
   | EChar c => Z.ltb c endSymbol
   | ERange lo hi => Z.ltb hi endSymbol
   | ESeq es | EAlt es => forallb expr_ok es
   | EAnd e1 | ENot e1 | EQuery e1 | EStar e1 | EPlus e1 | EPush e1 => expr_ok e1
-  | ESwitch _ _ => false
+  | ESwitch cs d => forallb (fun c => forallb (fun k => Z.ltb k endSymbol) (fst c) && expr_ok (snd c)) cs && expr_ok d
   | _ => true
   end.
 
